@@ -8,6 +8,7 @@ lists exactly which assumed contracts a verification relied on.
 import ast
 import z3
 from .values import *
+from .types import StrT as T_StrT, IntT as T_IntT
 from . import types as T
 from .ctx import PathAbort
 
@@ -761,6 +762,34 @@ def _set(interp, args, kwargs, node):
     items = interp.concrete_iter(v)
     if items is not None:
         return interp.born(interp.make_set(items, node))
+    if isinstance(v, VSet) and getattr(v, "zset", None) is not None and v.pred is not None:
+        # set(<a set>) is a new set object with the same elements
+        c = VSet(pred=v.pred)
+        c.zset, c.elem_kind = v.zset, getattr(v, "elem_kind", None)
+        return interp.born(c)
+    if isinstance(v, VList) and isinstance(v.content, SymSeq) and getattr(v, "sid", None) and isinstance(
+            getattr(v.content, "elem_kind", None), (T_StrT, T_IntT)):
+        # the element set of a symbolic sequence: one set constant per (sequence, content version), so that the same set built twice
+        # (by the code and by a contract clause) is the same term
+        ctx = interp.ctx
+        if not hasattr(ctx, "memo"):
+            ctx.memo = {}
+        key = ("elems", v.sid, id(v.content))
+        ek = v.content.elem_kind
+        if key not in ctx.memo:
+            n_ = sum(1 for k_ in ctx.memo if isinstance(k_, tuple) and k_ and k_[0] == "elems")
+            zs = z3.Const(f"elems[{v.sid}]" + (f"#{n_}" if n_ else ""), z3.SetSort(ek.sort()))
+            x = z3.Const("x!el", ek.sort())
+            k = z3.Int("k!el")
+            cont = v.content
+            ctx.assume(z3.ForAll([x], z3.IsMember(x, zs) == z3.Exists([k], z3.And(0 <= k, k < cont.length, cont.at(k).term == x)),
+                                 patterns=[z3.IsMember(x, zs)]))
+            ctx.assume(z3.ForAll([k], z3.Implies(z3.And(0 <= k, k < cont.length), z3.IsMember(cont.at(k).term, zs)), patterns=[cont.at(k).term]))
+            ctx.memo[key] = zs
+        zs = ctx.memo[key]
+        c = VSet(pred=lambda y: z3.IsMember(y.term, zs))
+        c.zset, c.elem_kind = zs, ek
+        return interp.born(c)
     s = interp.born(VSet(ConcreteSeq([])))
     r = _run("unop", interp, "set", v, node)
     if r is not None:
